@@ -20,6 +20,7 @@ import OdeVerif.Model.FromFunction
 import OdeVerif.Model.Singularity
 import OdeVerif.Model.Poly
 import OdeVerif.Model.Pipeline
+import OdeVerif.Model.Glue
 
 open Lean
 
@@ -587,6 +588,71 @@ def opPipeline (j : Json) : Except String Json := do
       ("numeric_rhs", Json.arr (r.numericRhs.map (fun ir => Json.arr #[Json.num (JsonNumber.fromNat ir.1), Json.str (stringOfRat (ev ir.2))])).toArray)])
   else .error "time symbol index out of range"
 
+
+/-! ### glue around the core of `_analysis` (Model/Glue.lean) -/
+
+def parseSym (j : Json) : Except String Glue.Sym := do
+  let a ← j.getArr?
+  match a.toList with
+  | [n, k] => pure ((← n.getStr?), (← k.getNat?))
+  | _ => throw "bad symbol"
+
+def symJson (s : Glue.Sym) : List Json := [Json.str s.1, Json.num (JsonNumber.fromNat s.2)]
+
+def opGlueIv (j : Json) : Except String Json := do
+  let shapes ← (← getArr j "shapes").toList.mapM (fun sj => do
+    let iv ← (← getArr sj "iv").toList.mapM (fun e => do
+      match (← e.getArr?).toList with
+      | [n, k, v] => pure (((← n.getStr?), (← k.getNat?)), (← v.getStr?))
+      | _ => throw "bad initial value")
+    pure ({ symbol := (← getStr sj "symbol"), order := (← getNat sj "order"), iv := iv } : Glue.ShapeIv))
+  let solvers ← (← getArr j "solvers").toList.mapM (fun sv => do (← sv.getArr?).toList.mapM parseSym)
+  let out := solvers.map (Glue.ivOut shapes)
+  let sys ← (← getArr j "queries").toList.mapM (fun q => do
+    let s ← parseSym q
+    pure (match Glue.sysIv shapes s with
+      | none => Json.str "unknown"
+      | some none => Json.null
+      | some (some v) => Json.arr #[Json.str v]))
+  pure (Json.mkObj [("out", Json.arr (out.map (fun l => Json.arr (l.map (fun p =>
+      Json.arr (symJson p.1 ++ [match p.2 with | some v => Json.str v | none => Json.null]).toArray)).toArray)).toArray),
+    ("sys", Json.arr sys.toArray)])
+
+def opGluePreserve (j : Json) : Except String Json := do
+  let dyn ← (← getArr j "dyn").toList.mapM (fun d => do
+    let e := (d.getObjValAs? String "expression").toOption
+    let es := (d.getObjValAs? (List String) "expressions").toOption
+    pure ({ hasExpression := e.isSome, expression := e.getD "", hasExpressions := es.isSome, expressions := es.getD [] } : Glue.Dyn))
+  let table ← (← getArr j "parse").toList.mapM (fun r => do
+    match (← r.getArr?).toList with
+    | [e, n, k, rhs] => pure ((← e.getStr?), ((← n.getStr?), (← k.getNat?), (← rhs.getStr?)))
+    | _ => throw "bad parse row")
+  let parse : Glue.Parse := fun e => (table.lookup e).getD ("", 0, "")
+  let marker ← getStr j "marker"
+  let repl : String → String := fun s => s.replace "'" marker
+  let argj ← j.getObjVal? "arg"
+  let arg : Glue.PArg := match argj with
+    | Json.bool b => .flag b
+    | Json.arr a => .names (a.toList.filterMap (fun x => x.getStr?.toOption))
+    | _ => .other
+  let solvers ← (← getArr j "solvers").toList.mapM (fun sj => do
+    pure ({ id := (← getNat sj "id"), hasUpdate := (← getBool sj "hasUpdate"), analytic := (← getBool sj "analytic"),
+            update := (← sj.getObjValAs? (List String) "update") } : Glue.SolverP))
+  match Glue.preserveSpec parse repl dyn arg solvers with
+  | .error e => pure (Json.mkObj [("error", Json.str (match e with
+      | .notFirstOrder => "notFirstOrder" | .badArgument => "badArgument" | .assertFailed => "assertFailed"))])
+  | .ok out => pure (Json.mkObj [("ok", Json.arr (out.map (fun p =>
+      Json.arr #[Json.num (JsonNumber.fromNat p.1), Json.str p.2.1, match p.2.2 with | some t => Json.str t | none => Json.null])).toArray),
+      ("first_order", Json.arr ((Glue.firstOrderVars parse dyn).map Json.str).toArray)])
+
+def opGlueLin (j : Json) : Except String Json := do
+  let shapes ← (← getArr j "shapes").toList.mapM (fun sj => do
+    pure ({ symbol := (← getStr sj "symbol"), order := (← getNat sj "order"), lin := (← getBool sj "lin") } : Glue.ShapeLin))
+  let qs ← (← getArr j "queries").toList.mapM parseSym
+  pure (Json.mkObj [("lin", Json.arr (qs.map (fun q => match Glue.linOf shapes q with
+    | some b => Json.bool b | none => Json.null)).toArray)])
+
+
 def dispatch (op : String) (j : Json) : Json :=
   match op with
   | "ping" => Json.mkObj [("pong", j)]
@@ -614,6 +680,9 @@ def dispatch (op : String) (j : Json) : Json :=
   | "singularities" => run (opSingularities j)
   | "poly-verdict" => run (opPolyVerdict j)
   | "pipeline" => run (opPipeline j)
+  | "glue_iv" => run (opGlueIv j)
+  | "glue_preserve" => run (opGluePreserve j)
+  | "glue_lin" => run (opGlueLin j)
   | _ => jerr ("unknown-op: " ++ op)
 
 end OdeVerif.Driver
